@@ -1,16 +1,27 @@
 import XModel.Unique
 import XModel.Capstone
+import XModel.ManagerC20
+import XProofs.Properties.C01
 /-!
 # C20 — results do not depend on the build or the hash seed
-The hash seed reaches the library only through the iteration order of sets, i.e. through the order in
-which the triggered tasks are listed.  `C20_order_independent_partial`: two runs that both end in a
-state where every definition holds (which `Capstone.setValue_consistent` establishes for *every*
-legal order of the start set and of the adjacency lists, under H1–H4) and that agree on the locations
-no task writes, agree on every defined location.  Equality of the Cython build and the interpreted
-build cannot be a theorem about the model: both are compared with the model and with each other.
+
+The hash seed reaches the library only through the iteration order of sets, i.e. through the order in which
+`find_taskids` starts its depth-first walks and follows adjacency lists: in the model, through the scheduler
+parameter `sched`.  Proved on the executable manager (`XModel/Manager.lean`, the definitions the driver runs):
+
+* `C20_set_value`, `C20_set_expr` — for an assignment in scope, *any two* legal schedules give the same container
+  tree, the same definitions and the same indices, and the second completes whenever the first does;
+* `C20_histories` — over whole histories of in-scope assignments and maintenance calls the two schedulers lead
+  through identical states (event log aside, which is the order itself).
+
+The scope is C01's (`Scope`): outside it — two tasks writing below one nested container and feeding each other,
+known finding D1 — the result *does* depend on the order, in the model (`C20_order_matters_outside_scope`) and in
+the code.  `_partial`: the equality of the Cython build and the interpreted build is not a statement about the
+model; both builds are compared with the model and with each other by the check (transcripts over
+{pure, compiled} × PYTHONHASHSEED).  Histories with errors inside `run_tasks` are compared only by the check.
 -/
 namespace Properties.C20
-open Store Push
+open Store Push Index Manager
 
 theorem C20_order_independent_partial (sem : Sem) (free : List Step → Prop) (ts : List ETask) (σ σ' : Val)
     (hord : Unique.Ordered free ts)
@@ -19,5 +30,54 @@ theorem C20_order_independent_partial (sem : Sem) (free : List Step → Prop) (t
     (hfree : ∀ r, free r → get σ r = get σ' r) :
     ∀ t ∈ ts, get σ t.target = get σ' t.target :=
   Unique.consistent_unique sem free ts σ σ' hord hfree hσ hσ'
+
+/-- writes to prefix-incomparable existing locations commute (the container-tree fact underneath) -/
+theorem C20_writes_commute (p q : List Step) (v v1 v12 a b pa qb : Val) (hi : Incomparable p q)
+    (hp : ∀ s ∈ p, s.canon) (hq : ∀ s ∈ q, s.canon) (hgp : get v p = .ok pa) (hgq : get v q = .ok qb)
+    (h1 : set v p a = .ok v1) (h2 : set v1 q b = .ok v12) :
+    ∃ v2, set v q b = .ok v2 ∧ set v2 p a = .ok v12 :=
+  set_comm p q v v1 v12 a b pa qb hi hp hq hgp hgq h1 h2
+
+/-- **`set_value(ref, value)`**: any two legal schedules — any two hash seeds — same contents, definitions, indices -/
+theorem C20_set_value (sched1 sched2 : Sched) (s : MState) (p : Path) (v : Val) (hi : MInv s)
+    (hc : Consistent s) (sc : Scope (preState s p) p)
+    (hvs1 : ValidSched (gOf (preState s p).idx) (findTaskids (preState s p).idx (chainR p))
+      (sched1 (findTaskids (preState s p).idx (chainR p))))
+    (hvs2 : ValidSched (gOf (preState s p).idx) (findTaskids (preState s p).idx (chainR p))
+      (sched2 (findTaskids (preState s p).idx (chainR p))))
+    (s1 : MState) (hok : setValue sched1 s p v = (s1, none)) :
+    ∃ s2, setValue sched2 s p v = (s2, none) ∧ s2.store = s1.store ∧ s2.defs = s1.defs ∧ s2.idx = s1.idx := by
+  obtain ⟨s2, h, e1, e2, e3, _⟩ := setValue_sched_indep sched1 sched2 s p v hi hc sc hvs1 hvs2 s1 hok
+  exact ⟨s2, h, e1, e2, e3⟩
+
+/-- **`set_value(ref, expression)`** -/
+theorem C20_set_expr (sched1 sched2 : Sched) (s : MState) (p : Path) (e : Expr) (hi : MInv s)
+    (hc : Consistent s) (sc : Scope (defPart s p e) p)
+    (hvs1 : ValidSched (gOf (defPart s p e).idx) (findTaskids (defPart s p e).idx (chainR p))
+      (sched1 (findTaskids (defPart s p e).idx (chainR p))))
+    (hvs2 : ValidSched (gOf (defPart s p e).idx) (findTaskids (defPart s p e).idx (chainR p))
+      (sched2 (findTaskids (defPart s p e).idx (chainR p))))
+    (s1 : MState) (hok : setExpr sched1 s p e = (s1, none)) :
+    ∃ s2, setExpr sched2 s p e = (s2, none) ∧ s2.store = s1.store ∧ s2.defs = s1.defs ∧ s2.idx = s1.idx := by
+  obtain ⟨s2, h, e1, e2, e3, _⟩ := setExpr_sched_indep sched1 sched2 s p e hi hc sc hvs1 hvs2 s1 hok
+  exact ⟨s2, h, e1, e2, e3⟩
+
+/-- **all histories**: two schedulers lead through the same states -/
+theorem C20_histories (sched1 sched2 : Sched) (cs : List Call) (s : MState) (hi : MInv s) (hc : Consistent s)
+    (hg : GoodRun2 sched1 sched2 s cs) : applyAllR sched2 s cs = applyAllR sched1 s cs :=
+  history_sched_indep sched1 sched2 cs s hi hc hg
+
+/-! outside the scope the order matters — in the model as in the code (known finding D1): the two members of
+    `d['n']` of `Properties.C01.histD1`, run in the two possible orders -/
+section witness
+open Properties.C01 in
+def afterDefs : MState := applyAll id Properties.C01.s1 (Properties.C01.histD1.take 2)
+def order1 : Sched := fun l => l
+def order2 : Sched := fun l => l.reverse
+theorem C20_order_matters_outside_scope :
+    get (setValue order1 afterDefs Properties.C01.nz (.int 5)).1.store Properties.C01.ny = .ok (.int 3) ∧
+    get (setValue order2 afterDefs Properties.C01.nz (.int 5)).1.store Properties.C01.ny = .ok (.int 11) :=
+  ⟨rfl, rfl⟩
+end witness
 
 end Properties.C20
